@@ -27,6 +27,10 @@ CHECKS.update({
 CHECKS.update({
 "C20":("exploration","Generated crontab specs (lists, ranges, steps, L, xL, x#n, both day fields) in four time zones, node started at drawn instants 2000-2004 (near sparse matches, month ends, 29 Feb, DST changes), minute timer run on the simulated clock for hours to days with jobs added/disabled/enabled/removed midway; fired minutes, MessageCron.Time and JobSchedule compared with an independent crontab evaluator; malformed specs must be rejected."),
 })
+CHECKS.update({
+"C12":("exploration","Two real nodes over simulated TCP (random segmentation, pooled links with latency skew) exchanging typed payloads of boundary sizes with all compression settings, bounded and missing receivers and a peer message-size limit; send log vs receive log: exactly once, right addressee, true sender, payload equality, oversize refused at the sender, important-delivery results truthful."),
+"C13":("exploration","Numbered streams between process pairs over pooled links with up to 1000x latency skew, segmentation, a single pooled link cut (re-dialled by the protocol) or stalled mid-stream, pid residues varied by filler spawns; per (sender, receiver, addressing mode) the received sequence must increase, nothing twice, nothing lost without a cut."),
+})
 NA={}
 def chk(pid):
     level,text=CHECKS[pid]
